@@ -606,6 +606,29 @@ theorem C15_report_eq (apid sub count ver ref dst : Nat) (ts : Bytes) (p : VPara
   refine ⟨_, C15_report_roundtrip apid sub count ver ref dst ts p ha hc hsub hv hr hd hl wp ex hm sb eb hsb heb rest,
     (C15_report_eq_iff _ _ we we).2 rfl, (C15_report_eq_iff _ _ we we).2 rfl⟩
 
+/-- **end to end**, in terms of the constructor and `pack`/`unpack` only: the report built for a
+    request id packs, carries the prescribed source data, and decoding the packed octets (followed by
+    anything) with matching widths gives back the very same report, which compares equal to itself
+    under `==` — every subservice 1..8, every width combination, every timestamp length -/
+theorem C15_report_end_to_end (apid sub count ver ref dst : Nat) (ts : Bytes) (p : VParams)
+    (ha : apid < 2048) (hc : count < 16384) (hsub : 1 ≤ sub ∧ sub ≤ 8) (hv : ver < 8) (hr : ref < 16)
+    (hd : dst < 65536) (hl : ts.length + (Spec.sourceData p).length ≤ 65527)
+    (wp : WFParams p) (ex : ExactParams p) (hm : Matches p sub) (sb eb : Nat)
+    (hsb : ∀ s, p.stepId = some s → sb = fieldWidth s)
+    (heb : ∀ n, p.failure = some n → eb = fieldWidth n.code) (rest : Bytes) :
+    ∃ s raw, S1Tm.new (apid : Int) (sub : Int) ts (some p) (count : Int) ver ref dst = .ok s ∧
+      s.pack = .ok raw ∧ s.tm.sourceData = Spec.sourceData p ∧ s.params = p ∧
+      S1Tm.unpack (raw ++ rest) ts.length sb eb = .ok s ∧ (S1Tm.unpack (raw ++ rest) ts.length sb eb >>= S1Tm.pack) = .ok raw ∧
+      s.beq s = true := by
+  obtain ⟨h1, h2, h3⟩ := C15_report_layout apid sub count ver ref dst ts p ha hc (by omega) (by omega) wp hm
+  obtain ⟨h4, _⟩ := h3 hv hr hd hl
+  have wf := reportTm_wf apid sub count ver ref dst ts p ha hc (by omega) hv hr hd hl
+  have we : WFEq ⟨Spec.reportTm apid sub count ver ref dst ts p, p⟩ := ⟨wf.1, wf.2.1, wp.1⟩
+  exact ⟨_, _, h1, h4, h2, rfl,
+    C15_report_roundtrip apid sub count ver ref dst ts p ha hc hsub hv hr hd hl wp ex hm sb eb hsb heb rest,
+    C15_report_repack apid sub count ver ref dst ts p ha hc hsub hv hr hd hl wp ex hm sb eb hsb heb rest,
+    (C15_report_eq_iff _ _ we we).2 rfl⟩
+
 /-- what the decoder guarantees for ANY accepted octet string, with any configured widths: the
     telemetry part is what the generic decoder returns, the subservice is one of 1..8, the decoded
     parameter set has the shape of that subservice, and the request id is the first four octets of
